@@ -1,6 +1,7 @@
 import TrackVerif.LT.FmtLemmas
 import TrackVerif.LT.XmlLemmas
 import TrackVerif.LT.TimeLemmas
+import TrackVerif.LT.CodecLemmas
 import TrackVerif.LT.Spec
 import TrackVerif.Generated.LT
 /-
@@ -12,7 +13,7 @@ import TrackVerif.Generated.LT
   (which must agree with the implementation byte for byte) and the declarative `Spec.quant`.
 -/
 namespace TrackVerif.C01
-open TrackVerif TrackVerif.LT TrackVerif.LT.Fmt TrackVerif.LT.Text
+open TrackVerif TrackVerif.LT TrackVerif.LT.Fmt TrackVerif.LT.Text TrackVerif.LT.Spec
 
 /-- the schema regenerated from the source on this run is the one the theorems are about -/
 theorem schema_matches_spec :
@@ -75,32 +76,6 @@ theorem cp1252_roundtrip (c : Char) (b : Nat) (h : enc1252 c = some b) : dec1252
 theorem cp1252_ascii : ∀ b < 128, SpecSchema.cp1252[b]? = some b := by decide +kernel
 
 /-! ### Durations -/
-
-theorem lit_dur_string : Spec.schema.lit "Duration.String" 0 = some "%02d:%02d.%02d" := by decide +kernel
-theorem lit_dur_parse : Spec.schema.lit "Duration.Parse" 0 = some "%d:%d.%d" := by decide +kernel
-theorem fmt_dur_string : parseFormat "%02d:%02d.%02d".toList = some [.d 2, .lit ':', .d 2, .lit '.', .d 2] := by decide
-theorem fmt_dur_parse : parseFormat "%d:%d.%d".toList = some [.d 0, .lit ':', .d 0, .lit '.', .d 0] := by decide
-
-/-- what `Duration.String` prints for a non-negative duration of `n` nanoseconds -/
-theorem durationString_nonneg (n : Nat) :
-    durationString Spec.schema (n : Int) =
-      .ok (Dec.padLeft 2 '0' (natChars (n / 60000000000)) ++ ':' ::
-           (Dec.padLeft 2 '0' (natChars (n % 60000000000 / 1000000000)) ++ '.' ::
-            Dec.padLeft 2 '0' (natChars (n % 1000000000 / 10000000)))) := by
-  have e1 : Int.tdiv (n : Int) 60000000000 = ((n / 60000000000 : Nat) : Int) := by
-    rw [Int.tdiv_eq_ediv_of_nonneg (by omega)]; omega
-  have e2 : Int.tdiv ((n : Int) - ((n / 60000000000 : Nat) : Int) * 60000000000) 1000000000
-      = ((n % 60000000000 / 1000000000 : Nat) : Int) := by
-    rw [Int.tdiv_eq_ediv_of_nonneg (by omega)]; omega
-  have e3 : Int.tdiv (Int.tdiv ((n : Int) - ((n / 60000000000 : Nat) : Int) * 60000000000
-      - ((n % 60000000000 / 1000000000 : Nat) : Int) * 1000000000) 1000000) 10
-      = ((n % 1000000000 / 10000000 : Nat) : Int) := by
-    have inner := Int.tdiv_eq_ediv_of_nonneg (a := (n : Int) - ((n / 60000000000 : Nat) : Int) * 60000000000
-      - ((n % 60000000000 / 1000000000 : Nat) : Int) * 1000000000) (b := 1000000) (by omega)
-    rw [inner, Int.tdiv_eq_ediv_of_nonneg (by omega)]; omega
-  unfold durationString
-  simp only [e1, e2, e3, lit_dur_string, Option.bind_some, sprintf, fmt_dur_string, sprintfItems,
-    Option.map_some, fmtInt_nonneg, List.append_nil]
 
 /-- Duration: print then parse gives the duration truncated to whole centiseconds, for every
     non-negative duration (up to eleven thousand years) -/
